@@ -208,12 +208,22 @@ func (r *CPUSuppress) applyCPUSetWithNonePolicy(cpus []int32, oldCPUSet []int32)
 		return fmt.Errorf("apply be suppress policy failed, err: %s", err)
 	}
 
-	// write a loose cpuset for all be cgroups before applying the real policy
-	mergedCPUSet := cpuset.MergeCPUSet(oldCPUSet, cpus)
-	mergedCPUSetStr := cpuset.GenerateCPUSetStr(mergedCPUSet)
-	klog.V(6).Infof("applyCPUSetWithNonePolicy temporarily writes cpuset from upper cgroup to lower, cpuset %v",
-		mergedCPUSet)
-	r.writeBECgroupsCPUSet(cpusetCgroupPaths, mergedCPUSetStr, false)
+	// write a loose cpuset for the be cgroups before applying the real policy: from upper to lower, each cgroup gets
+	// the union of its own current cpuset and the new one; a cgroup which already contains the new cpuset is left
+	// untouched (it is only narrowed in the next step), so that an unchanged cgroup is never rewritten
+	klog.V(6).Infof("applyCPUSetWithNonePolicy temporarily loosens cpuset from upper cgroup to lower, old %v, new %v",
+		oldCPUSet, cpus)
+	for _, cgroupPath := range cpusetCgroupPaths {
+		curCPUSet := oldCPUSet
+		if cur, err := r.cgroupReader.ReadCPUSet(cgroupPath); err == nil {
+			curCPUSet = cur.ToInt32Slice()
+		}
+		mergedCPUSet := cpuset.MergeCPUSet(curCPUSet, cpus)
+		if len(mergedCPUSet) == len(curCPUSet) {
+			continue
+		}
+		r.writeBECgroupsCPUSet([]string{cgroupPath}, cpuset.GenerateCPUSetStr(mergedCPUSet), false)
+	}
 
 	// apply the suppress policy from lower to upper
 	cpusetStr := cpuset.GenerateCPUSetStr(cpus)
